@@ -320,6 +320,35 @@ class GoTest(Part):
         ctx.run_part(self.name, [b, '-test.run', self.runpat, '-test.timeout', '0', '-test.count', '1'], extra)
 
 
+class RwTest(Part):
+    """In-package sequential harness (go test) over a partially rewritten package
+    (import swaps only, e.g. the virtual clock); no scheduler involved."""
+
+    def __init__(self, name, pkg, harness_dirs, rewrite_cfg, run, thorough_only=False, env=None, agent=False):
+        super().__init__(name, thorough_only)
+        self.pkg, self.harness_dirs, self.rewrite_cfg, self.runpat = pkg, harness_dirs, rewrite_cfg, run
+        self.env = env or {}
+        self.agent = agent
+
+    def build(self, ctx):
+        mp = McPart(self.name, '', self.pkg, self.harness_dirs, self.rewrite_cfg)
+        return mp.build(ctx)
+
+    def warm(self, ctx):
+        self.build(ctx)
+        if self.agent:
+            ctx.build_agent()
+
+    def run(self, ctx, replay):
+        b = self.build(ctx)
+        extra = dict(self.env)
+        if self.agent:
+            extra['VERIF_AGENT_BIN'] = ctx.build_agent()
+        if replay:
+            extra['VERIF_REPLAY'] = os.path.abspath(replay)
+        ctx.run_part(self.name, [b, '-test.run', self.runpat, '-test.timeout', '0', '-test.count', '1'], extra)
+
+
 class McPart(Part):
     """Exploration of a package rewritten by mcrewrite under the controlled scheduler.
     Scenarios are distributed over worker processes (one scheduler per process)."""
